@@ -53,6 +53,9 @@ CONSTANTS NCells,     \* MC: number of heap cells
           FirstWriteKeeps, \* deviation: like StoreIn, but only when nothing is stored yet (no message to merge into)
           HookEditsOld,    \* deviation: a hook of the write (interceptor, callback handed the old value) writes into
                            \* the old stored cell; the committed state and the result are nevertheless right
+          LendsOld,        \* deviation: the write leaves the caller's cell sharing memory with the old stored cell
+                           \* (a pointer, slice or map of the old message is assigned into the caller's message);
+                           \* the committed state is a proper copy
           InitKinds,  \* configurations the object may be constructed in: "absent" (a Value without initial value,
                       \* an empty Collection: nothing stored yet) and/or "present" (initial value / records)
           NCases,     \* Gen: number of walks
@@ -66,10 +69,11 @@ VARIABLES heap,       \* cell -> content now
           dir,        \* cell -> "none" | "in" | "out" | "both": how it crossed the boundary
           frozen,     \* cell -> content at the moment it crossed
           scribbled,  \* cells the caller overwrote himself
+          lent,       \* pairs <<a, o>>: cell a (the caller's) shares memory with cell o (writing through a shows in o)
           last,       \* kind of the last action
           c           \* Gen only: the walk being printed
 
-vars == <<heap, used, stored, model, dir, frozen, scribbled, last, c>>
+vars == <<heap, used, stored, model, dir, frozen, scribbled, lent, last, c>>
 
 Cells   == 1..NCells
 Nil     == 0           \* "no stored cell": heap[Nil] is the constant Absent
@@ -101,6 +105,7 @@ Init ==
   /\ dir = [x \in Cells |-> "none"]
   /\ frozen = [x \in Cells |-> 0]
   /\ scribbled = {}
+  /\ lent = {}
   /\ last = "init"
   /\ c = 0
 
@@ -136,10 +141,15 @@ Write(v) ==
            IN /\ heap' = h1 /\ used' = used \cup {a, n} /\ stored' = n
               /\ dir' = x2.dir2 /\ frozen' = x2.frz
 
+  \* (the caller's cell of this write is the new cell that crossed "in")
+  /\ lent' = IF LendsOld /\ stored # Nil
+             THEN lent \cup { <<x, stored>> : x \in { y \in used' \ used : dir'[y] \in {"in", "both"} } }
+             ELSE lent
+
 (* A read-only operation (Get, List, Pull with its seed, Describe) hands    *)
 (* out the stored cell itself (no mask) or a copy (mask).                   *)
 Read ==
-  /\ last' = "read" /\ c' = c /\ scribbled' = scribbled /\ model' = model /\ stored' = stored
+  /\ last' = "read" /\ c' = c /\ scribbled' = scribbled /\ model' = model /\ stored' = stored /\ lent' = lent
   /\ \/ LET h1 == IF ReadEdits /\ stored # Nil THEN [heap EXCEPT ![stored] = Edited] ELSE heap
             x  == CrossAll(dir, frozen, h1, {stored}, "out")
         IN heap' = h1 /\ used' = used /\ dir' = x.dir2 /\ frozen' = x.frz
@@ -149,13 +159,17 @@ Read ==
             x  == CrossAll(dir, frozen, h1, {n}, "out")
         IN heap' = h1 /\ used' = used \cup {n} /\ dir' = x.dir2 /\ frozen' = x.frz
 
-(* The caller overwrites every field of a message he handed to a write.     *)
+(* The caller overwrites a message he handed to a write, IN PLACE: he writes  *)
+(* through every pointer, slice, map and nested message reachable from it    *)
+(* (recycling a request message), so whatever shares memory with it shows    *)
+(* the scribble too.  Only the cell a itself becomes "scribbled" (exempt):   *)
+(* another cell that changes with it is a handed-out message that changed.   *)
 CallerScribble(a) ==
   /\ a \in used /\ dir[a] \in {"in", "both"} /\ a \notin scribbled
-  /\ heap' = [heap EXCEPT ![a] = Garbage]
+  /\ heap' = [x \in 0..NCells |-> IF x = a \/ <<a, x>> \in lent THEN Garbage ELSE heap[x]]
   /\ scribbled' = scribbled \cup {a}
   /\ last' = "scribble"
-  /\ UNCHANGED <<used, stored, model, dir, frozen, c>>
+  /\ UNCHANGED <<used, stored, model, dir, frozen, lent, c>>
 
 (* The caller drops a handle (the harness keeps at most MaxLive).           *)
 Forget(a) ==
@@ -164,11 +178,12 @@ Forget(a) ==
   /\ dir' = [dir EXCEPT ![a] = "none"]
   /\ scribbled' = scribbled \ {a}
   /\ heap' = [heap EXCEPT ![a] = 0] /\ frozen' = [frozen EXCEPT ![a] = 0]
+  /\ lent' = { p \in lent : p[1] # a /\ p[2] # a }
   /\ last' = "forget"
   /\ UNCHANGED <<stored, model, c>>
 
 (* Recheck: nothing is called, every live handle is compared again.         *)
-Recheck == last' = "recheck" /\ UNCHANGED <<heap, used, stored, model, dir, frozen, scribbled, c>>
+Recheck == last' = "recheck" /\ UNCHANGED <<heap, used, stored, model, dir, frozen, scribbled, lent, c>>
 
 Op == (\E v \in Vals : Write(v)) \/ Read
 Next == Op \/ (\E a \in Cells : CallerScribble(a) \/ Forget(a)) \/ Recheck
@@ -197,6 +212,9 @@ Bounded == Cardinality(used) <= NCells
 (* t of the real code.  t.changed = the handed-out handles (not scribbled   *)
 (* by the caller) whose content digest now differs from the frozen one;     *)
 (* t.pre / t.post = digest of the full read-back before / after the step.   *)
+(* On a "scribble" line the handles that ARE the overwritten messages (the   *)
+(* same objects) are exempt, as `scribbled` cells are above; every other     *)
+(* handle that changed with the in-place scribble is in t.changed.           *)
 ObsHandedOutStable(t) == \A k \in 1..Len(t.changed) : t.changed[k].now = t.changed[k].was
 ObsReadOnlyFrame(t)   == (t.kind = "call" /\ t.ro) => t.post = t.pre
 ObsStoreIsolated(t)   == t.kind = "scribble" => t.post = t.pre
@@ -218,7 +236,7 @@ Walk(k) == [n |-> k, init |-> R(InitKinds), steps |-> [j \in 1..R(MinOps..MaxOps
 
 GenInit ==
   /\ heap = [x \in 0..NCells |-> 0] /\ used = {1} /\ stored = 1 /\ model = 0
-  /\ dir = [x \in Cells |-> "none"] /\ frozen = [x \in Cells |-> 0] /\ scribbled = {} /\ last = "init"
+  /\ dir = [x \in Cells |-> "none"] /\ frozen = [x \in Cells |-> 0] /\ scribbled = {} /\ lent = {} /\ last = "init"
   /\ c \in { Walk(k) : k \in 1..NCases }
 GenNext == UNCHANGED vars
 EmitCase == PrintT("CASE " \o ToJson(c))
